@@ -259,6 +259,43 @@ def runRaised (c : Cfg) (pre : List (Stmt α)) (progs : List (List (Atom α))) (
   | .raised _ => true
 
 end
+/-! ### env.py variants around the documented shape
+
+* `preStmt`: env.py executes something on the migration connection between `context.configure()`
+  and `context.begin_transaction()` (`get_current_revision()`, a `SELECT`, a `PRAGMA`, `SET …`):
+  SQLAlchemy 2.0 autobegins.  `_in_external_transaction` was computed in
+  `MigrationContext.__init__`, i.e. *before* that statement, so the autobegun transaction is
+  not mistaken for the caller's: `begin_transaction` adopts it
+  (`_safe_begin_connection_transaction`) and commits it.
+* `noOuter`: env.py calls `context.run_migrations()` without the outer
+  `with context.begin_transaction():` (harmless exactly when that level is a `nullcontext()`
+  anyway, see `C04.shape_noOuter_same`). -/
+inductive Shape where
+  | stock
+  | preStmt
+  | noOuter
+  deriving DecidableEq, Repr
+
+section
+variable {α σ : Type} (ap : α → σ → σ)
+
+/-- what a fresh connection sees afterwards, and whether the run raised -/
+def finish (c : Cfg) (proxy : Bool) : Outcome σ → σ × Bool
+  | .ok st => ((closeConn c false (exitIf proxy false st)).committed, false)
+  | .raised st => ((closeConn c true (exitIf proxy true st)).committed, true)
+
+def runShape (sh : Shape) (c : Cfg) (pre : List (Stmt α)) (progs : List (List (Atom α))) (db : σ) : σ × Bool :=
+  match sh with
+  | .stock =>
+    finish c (beginTransaction c false (initSt c db)).1
+      (runMigrations ap c pre progs (beginTransaction c false (initSt c db)).2)
+  | .preStmt =>
+    finish c (beginTransaction c false (autobegin c.mode (initSt c db))).1
+      (runMigrations ap c pre progs (beginTransaction c false (autobegin c.mode (initSt c db))).2)
+  | .noOuter => finish c false (runMigrations ap c pre progs (initSt c db))
+
+end
+
 /-! ### `EnvironmentContext.configure` called several times in one env.py run
 
 `opts = self.context_opts` is one dict for the whole `EnvironmentContext` (one env.py run) and
